@@ -14,7 +14,8 @@ import bounds_cases as bc
 
 REPO_DIR = os.path.realpath(REPO)
 
-# which functions a known cause can surface in (a report elsewhere is never matched to it)
+# which functions a known cause can surface in (a report elsewhere is never matched to it).  Every cause is fixed on the
+# current tree, so run() predicts nothing: any sanitizer report is 'unpredicted'.  The table serves the replays.
 PRED = {
     "fp-zerobin-outside-grid": {"FokkerPlanckMap": "fp-zerobin-outside-grid"},
     "pad-overflow": {"padBunchProfiles": "pad-overflow", "wakePotential": "pad-overflow"},
@@ -22,6 +23,8 @@ PRED = {
     "startfile-size-mismatch": {k: "startfile-size-mismatch" for k in
                                 ("main", "FokkerPlanckMap", "KickMap", "PhaseSpace", "SourceMap", "HDF5File", "ElectricField", "assert")},
 }
+FP_REFUSAL = "Zero energy has to lie on the grid"
+SIZE_REFUSAL = "Grid size of initial distribution differs"
 TRACK_EDGE = "6 6\n-6 -6\n6 -6\n0 0\n5.9 5.9\n"
 
 
@@ -264,6 +267,15 @@ def api_correspondence(ctx, tg, tga):
                      dict(kind="pad", n=n, buckets=buckets, nmax=nmax, spacing=sp)))
     for (cid, n, dt, pmin, pmax, zb, fpt) in fps[: (24 if quick else 300)]:
         ok = model[cid]["ok"][0][0] == "1"
+        if dt == 4 and model[cid]["guard"][0][0] != "1":
+            # main refuses such an axis (fix 5c817d5); the constructor is not reachable with it
+            ctx.count("fp:outside-main-guard")
+            if ok and n >= 4:
+                pass                      # guard stricter than necessary here: harmless
+            continue
+        if not ok and n >= 4:
+            dis.append(dict(case=dict(kind="fp", id=cid, n=n, dt=dt, zerobin=str(zb)), detail="guard holds but the model's constructor is out of bounds",
+                            sig=dict(stage="correspondence", kind="fp-guard-theorem")))
         txt = "fp %s %d %d %s %s %d 1\n" % (cid, n, dt, fhex(float(pmin)), fhex(float(pmax)), fpt)
         jobs.append((txt, ok, {"FokkerPlanckMap": "fp-zerobin-outside-grid"},
                      dict(kind="fp", n=n, dt=dt, pmin=str(pmin), pmax=str(pmax), zerobin=str(zb), fptype=fpt)))
@@ -351,18 +363,9 @@ def gen_config(rng, i, quick):
 
 
 def predict(cfg, m_sizes, m_pad, m_fp):
-    """{function substring: cause} for the defects the model says this configuration can reach"""
-    pred = {}
-    if m_fp is not None and m_fp[0] != "1":
-        pred["FokkerPlanckMap"] = "fp-zerobin-outside-grid"
-    if m_pad is not None and m_pad != "1":
-        pred["padBunchProfiles"] = "pad-overflow"
-        pred["wakePotential"] = "pad-overflow"
-    # location-determined causes (each is one defect, whatever the configuration)
-    pred["KickMap::updateSM"] = "kick-negative-offset-conversion"
-    if cfg.get("_track"):
-        pred["appendTracks"] = "track-outside-grid"
-    return pred
+    """{function substring: cause} for the defects the model says this configuration can reach: none on the tree after
+    the fixes (padded length d13e4f1, Fokker-Planck guard 5c817d5, kick conversion fbbfcf6, tracking clamp f5243ba)"""
+    return {}
 
 
 def write_tracking(path, cfg, rng):
@@ -392,7 +395,10 @@ def program_runs(ctx, tg, tga):
         w5 = dict(GridSize=16, BunchCurrent=[1e-3] * 31, padding=2.0, RoundPadding=1, StepsPerTs=100, rotations=0.02, outstep=1, _out=False, _track=False)
         bc.tune_spacing(w5, 16.5001)
         w6 = dict(GridSize=32, StepsPerTs=100, rotations=1.0, outstep=1, FPTrack=3, DampingTime=1e-6, _out=True, _track=True, _trackfile=TRACK_EDGE)
-        cfgs = [w1, w2, w3, w4, w5, w6] + cfgs
+        w7 = dict(GridSize=32, PhaseSpaceShiftY=17.5, StepsPerTs=100, rotations=0.02, outstep=1, _out=False, _track=False)    # zerobin 33: just above the grid
+        w8 = dict(GridSize=32, PhaseSpaceShiftY=-15.0, StepsPerTs=100, rotations=0.02, outstep=1, _out=False, _track=False)   # zerobin 0.5: row 0 would store index 2^32-1
+        w9 = dict(GridSize=32, PhaseSpaceShiftY=14.0, StepsPerTs=100, rotations=0.02, outstep=1, _out=False, _track=False)    # zerobin 29.5: accepted
+        cfgs = [w1, w2, w3, w4, w5, w6, w7, w8, w9] + cfgs
         mtext = []
         for i, cfg in enumerate(cfgs):
             n = cfg["GridSize"]
@@ -448,6 +454,21 @@ def program_runs(ctx, tg, tga):
             case = dict(kind="program", args=args, config=pub, tracking_file=cfg.get("_trackfile"), model=dict(sizes=cfg["_model_sizes"], pad_ok=m_pad, fp_ok=m_fp, zerobin=cfg["_zb"], spacing_ps=cfg["_sps"]))
             clean = classify(ctx, rc, err, pred, case, "inovesa under ASan/UBSan")
             ctx.count("program:%s" % ("clean" if clean else "report"))
+            # the model's verdicts for this configuration: the padded buffers hold every block (pad_in_bounds_fixed) ...
+            if m_pad is not None and m_pad != "1":
+                dis.append(dict(case=case, detail="model: the fixed sizing does not hold the last block", sig=dict(stage="correspondence", kind="model-pad")))
+            # ... and main's guard decides whether the cubic Fokker-Planck map is built at all
+            guard = model["f%d" % i]["guard"][0][0] == "1"
+            refused = FP_REFUSAL in (so + err)
+            if clean and cfg.get("derivation", 4) == 4:
+                ctx.count("program:fp-guard:%s" % ("passes" if guard else "refuses"))
+                if refused != (not guard):
+                    if refused:
+                        dis.append(dict(case=case, detail=dict(model_guard=guard, program_refused=refused), sig=dict(stage="correspondence", kind="fp-guard")))
+                    else:
+                        ctx.violation("impl-oracle", "zero energy outside the cubic stencil's range (zerobin %r, GridSize %d) is not refused" % (cfg["_zb"], cfg["GridSize"]),
+                                      case=case, observed=(so + err)[-400:], expected="the message '%s ...' and a stop" % FP_REFUSAL,
+                                      sig=dict(stage="oracle", cause="fp-guard-missing"))
             nontriv = len(cfg.get("BunchCurrent", [1])) > 1 or abs(cfg.get("PhaseSpaceShiftY", 0)) > 1 or cfg.get("StepsPerTs", 1000) < 10
             ctx.case_done(("program", i), nontriv)
             # size correspondence through the results file (the file keeps nmax/2 columns)
@@ -499,7 +520,7 @@ def malformed_files(ctx, tg, tga, work, env):
         p = mk(name, text)
         for ft in (0, 1, 2, 3):
             a = base + ["--tracking", p, "--FPTrack", str(ft), "-o", os.path.join(work, "%s-%d.h5" % (name, ft))]
-            jobs.append((dict(kind="program", file=name, contents=text, args=a), a, PRED["track-outside-grid"]))
+            jobs.append((dict(kind="program", file=name, contents=text, args=a), a, {}))
     for name, text in [("s_empty.txt", ""), ("s_one.txt", "0.1 0.2\n"), ("s_far.txt", "1e9 1e9\n-1e9 3\n"), ("s_junk.txt", "x y z\n"),
                        ("s_grid.txt", "".join("%r " % (i * 0.01) for i in range(64 * 64)) + "\n"), ("s_nan.txt", "nan nan\n")]:
         p = mk(name, text)
@@ -510,9 +531,9 @@ def malformed_files(ctx, tg, tga, work, env):
         rc, so, err = bc.run_proc([tg["inovesa"], "--run_anyway", "1", "--gui", "0", "--GridSize", str(sz), "--StepsPerTs", "100", "--rotations", "0.02",
                                    "--outstep", "1", "--SavePhaseSpace", "1", "-o", p], env=vp_build.xdg_env(), timeout=60, cwd=work)
         if os.path.exists(p):
-            pred = {} if sz == 32 else PRED["startfile-size-mismatch"]
+            pred = {}
             a = base + ["-i", p, "-o", os.path.join(work, "cont%d.h5" % sz)]
-            jobs.append((dict(kind="program", file="start%d.h5 (a results file of GridSize %d used with --GridSize 32)" % (sz, sz), args=a), a, pred))
+            jobs.append((dict(kind="program", file="start%d.h5 (a results file of GridSize %d used with --GridSize 32)" % (sz, sz), args=a, mismatch=(sz != 32)), a, pred))
     p = os.path.join(work, "trunc.h5")
     if os.path.exists(os.path.join(work, "start32.h5")):
         with open(os.path.join(work, "start32.h5"), "rb") as f:
@@ -528,13 +549,15 @@ def malformed_files(ctx, tg, tga, work, env):
     res = bc.pmap(runjob, jobs)
     for (case, args, pred), (rc, so, err) in zip(jobs, res):
         clean = classify(ctx, rc, err, pred, case, "inovesa with input file %s under ASan/UBSan" % case["file"])
-        if clean and "size-mismatch" in json.dumps(pred) and pred:
-            # accepted silently: the grid takes the file's size while main keeps using --GridSize
-            msg = (so + err)
-            if rc == 0 and "Starting the simulation" in msg:
-                ctx.violation("impl-oracle", "a start file whose grid size differs from GridSize is accepted and the run continues", case=case,
-                              observed=msg[-400:], expected="a message and a stop (or a consistent use of the file's size)",
+        if clean and case.get("mismatch"):
+            msg = so + err
+            if SIZE_REFUSAL not in msg or "Starting the simulation" in msg:
+                ctx.violation("impl-oracle", "a start file whose grid size differs from GridSize is not refused", case=case,
+                              observed=msg[-400:], expected="the message '%s ...' and a stop" % SIZE_REFUSAL,
                               sig=dict(stage="sanitizer", cause="startfile-size-mismatch", where="main"))
+        if clean and case.get("mismatch") is False and SIZE_REFUSAL in (so + err):
+            ctx.violation("impl-oracle", "a start file of the right grid size is refused", case=case, observed=(so + err)[-400:],
+                          sig=dict(stage="oracle", cause="startfile-refused"))
         ctx.count("files:%s:%s" % (case["file"].split("_")[0][:6], "clean" if clean else "report"))
         ctx.case_done(("file", case["file"], " ".join(args[-6:])), True)
 
